@@ -322,3 +322,34 @@ func (d *Distinct) Map() map[string]int {
 	}
 	return out
 }
+
+// LoadReplay reads a replay file written by Report and returns its key, description and witness object.
+func (r *Run) LoadReplay() (key, desc string, witness map[string]any, err error) {
+	buf, err := os.ReadFile(r.Replay)
+	if err != nil {
+		return "", "", nil, err
+	}
+	var doc struct {
+		Key         string         `json:"key"`
+		Description string         `json:"description"`
+		Witness     map[string]any `json:"witness"`
+	}
+	if err := json.Unmarshal(buf, &doc); err != nil {
+		return "", "", nil, err
+	}
+	return doc.Key, doc.Description, doc.Witness, nil
+}
+
+// Remarshal converts a decoded JSON object into a typed value.
+func Remarshal(from any, to any) error {
+	buf, err := json.Marshal(from)
+	if err != nil {
+		return err
+	}
+	return json.Unmarshal(buf, to)
+}
+
+// FinishReplay ends a --replay invocation: exit 1 if the oracle reported again, 0 otherwise.
+func (r *Run) FinishReplay(what string) {
+	r.Finish(Coverage{Evaluations: 1, DistinctNontrivial: 1, Rule: "replay of one stored case: " + what}, nil)
+}
